@@ -48,13 +48,20 @@ class Session:
         self.srv.did_open(self.path, "nop\n")
         self.version = 1
 
-    def format(self, text, on_type=False):
-        self.version += 1
-        self.srv.did_change(self.path, text, self.version)
+    def format(self, text, on_type=False, options=None, reopen=False):
+        """The buffer reaches the server by didChange, or (reopen) by closing the document and opening it again with this
+        text while the file on disk says something else; then the formatting request with the client's options."""
+        options = options or {"tabSize": 4, "insertSpaces": True}
+        if reopen:
+            self.srv.did_close(self.path)
+            self.srv.did_open(self.path, text)
+        else:
+            self.version += 1
+            self.srv.did_change(self.path, text, self.version)
         if on_type:
             return self.srv.request("textDocument/onTypeFormatting", {"textDocument": {"uri": uri_of(self.path)}, "position": {"line": 0, "character": 0}, "ch": "}",
-                                                                    "options": {"tabSize": 4, "insertSpaces": True}})
-        return self.srv.request("textDocument/formatting", {"textDocument": {"uri": uri_of(self.path)}, "options": {"tabSize": 4, "insertSpaces": True}})
+                                                                    "options": options})
+        return self.srv.request("textDocument/formatting", {"textDocument": {"uri": uri_of(self.path)}, "options": options})
 
     def close(self):
         self.srv.kill()
@@ -97,6 +104,8 @@ def shard(idx, n, seed, tier, params):
                 kinds.append(("already-formatted", expected))
             if i % 5 == 0:
                 kinds.append(("on-type", text))
+            if i % 6 == 0:
+                kinds.append(("reopened", text))
             for kind, buf in kinds:
                 if kind == "already-formatted":
                     # (the formatter is not idempotent everywhere - C13 - so the reference is the formatter's text for THIS buffer)
@@ -107,8 +116,12 @@ def shard(idx, n, seed, tier, params):
                 else:
                     expected = want["format"]["main.asm"]
                 acc.evaluations += 1
-                r = ses.format(buf, on_type=(kind == "on-type"))
-                w = {"buffer": buf, "kind": kind, "response": r, "expected": expected}
+                # the client's own formatting options must not matter: the reference is `mos format` with default options
+                options = {"tabSize": rng.choice([1, 2, 3, 4, 4, 8]), "insertSpaces": rng.random() < 0.7}
+                if rng.random() < 0.3:
+                    options.update({"trimTrailingWhitespace": rng.random() < 0.5, "insertFinalNewline": rng.random() < 0.5, "trimFinalNewlines": rng.random() < 0.5})
+                r = ses.format(buf, on_type=(kind == "on-type"), options=options, reopen=(kind == "reopened"))
+                w = {"buffer": buf, "kind": kind, "options": options, "response": r, "expected": expected}
                 cls = "%s|%s|%s" % ("on-type" if kind == "on-type" else "formatting", "non-ascii" if any(ord(c) > 127 for c in buf) else "ascii", "crlf" if "\r\n" in buf else "lf")
                 if "dead" in r or "timeout" in r:
                     acc.violation("server-died|%s" % cls, "no response (%r); stderr: %s" % (r, ses.srv.stderr[-200:].decode("utf8", "replace")), w)
